@@ -17,11 +17,11 @@ theorem parseShortName_eq_spec (app : AppCfg) (file : String) :
   | none =>
     simp only [List.find?_append]
     cases h2 : List.find? (fun p => Py.startsWith file p) app.incl with
-    | some p => simp [h1, h2]
+    | some p => simp [h1]
     | none =>
       by_cases h3 : Py.startsWith file app.root = true
-      · simp [h1, h2, h3]
-      · simp [h1, h2, h3]
+      · simp [h1, h3]
+      · simp [h1, h3]
 
 theorem classNameOf_eq (f : String → Option String) : classNameOf f = f "self" := by
   unfold classNameOf
